@@ -265,3 +265,12 @@ if __name__ == "__main__":
     big = "fn dsp(){ let a = [" + ", ".join("1.0" for _ in range(30000)) + "]  a[0] }"
     assert huge_array_literal(big) and not huge_array_literal(B)
     print("predicates: self-test passed")
+
+
+# ---------------------------------------------------------------------------------------------------------------
+# ML  property=C03 / C01  class=match-arm-value-is-lambda
+def match_arm_value_is_lambda(src, message=""):
+    """VM compile panic `value function N not found` AND a `match` arm whose value is a lambda literal (`=> |..|`)"""
+    if not re.search(r"value function \d+ not found", message):
+        return False
+    return bool(re.search(r"=>\s*\(*\s*\|", _strip_comments(src)))
